@@ -64,4 +64,31 @@ theorem runs_flatten (cs : List (Cap α)) : (runs cs).flatMap (fun r => r.1 :: r
 example : mergeConcurrent 0
     [⟨1, 2, [7]⟩, ⟨1, 2, [8]⟩, ⟨3, 4, [9]⟩] = [⟨1, 2, [7, 0, 8]⟩, (⟨3, 4, [9]⟩ : Cap Nat)] := by decide
 
+/-- **C19 (runs are uniform).** all captions of a run have the start and end of its first caption -/
+theorem runs_uniform (cs : List (Cap α)) : ∀ r ∈ runs cs, ∀ y ∈ r.2, y.span = r.1.span := by
+  induction cs with
+  | nil => simp [runs]
+  | cons c cs ih =>
+    intro r hr
+    simp only [runs] at hr
+    split at hr
+    · simp only [List.mem_singleton] at hr; subst hr; simp
+    · rename_i d r' rest e
+      rw [e] at ih
+      split at hr
+      · rename_i hspan
+        rcases List.mem_cons.mp hr with rfl | hr
+        · intro y hy
+          rcases List.mem_cons.mp hy with rfl | hy
+          · exact hspan.symm
+          · rw [hspan]; exact ih (d, r') (by simp) y hy
+        · exact ih r (List.mem_cons_of_mem _ hr)
+      · rcases List.mem_cons.mp hr with rfl | hr
+        · simp
+        · exact ih r hr
+
+/-- **C19 (runs are maximal).** two neighbouring merged captions never have the same start and end: a run is not continued by the next one -/
+theorem merged_neighbours_differ (brk : α) (cs : List (Cap α)) : AdjDistinct ((runs cs).map (specCap brk)) :=
+  runs_adjDistinct brk cs
+
 end PcVerif.Props.C19
